@@ -440,7 +440,7 @@ func drawC16Writer(t *rapid.T) caseC16 {
 	w := drawC08(t)
 	// bias to the limits: incompressible >= 64 KiB, compressible >= 2 MiB
 	if rapid.IntRange(0, 2).Draw(t, "limit") == 0 {
-		big := gen.Seg{Kind: "random", Len: rapid.IntRange(65000, 140000).Draw(t, "rlen"), K: rapid.SampledFrom([]int{0, 0, 0, 226, 230, 234, 240, 248, 252, 255}).Draw(t, "alphabet"), Seed: rapid.Uint64().Draw(t, "rseed")}
+		big := gen.Seg{Kind: "random", Len: rapid.IntRange(65000, 140000).Draw(t, "rlen"), K: rapid.SampledFrom([]int{0, 0, 0, 230, 232, 234, 236, 238, 240, 242, 246, 252}).Draw(t, "alphabet"), Seed: rapid.Uint64().Draw(t, "rseed")}
 		if w.Cfg.Matcher == 0 && rapid.Bool().Draw(t, "compressible") {
 			big = gen.Seg{Kind: "zeros", Len: rapid.IntRange(2097152-10, 2097152+70000).Draw(t, "zlen")}
 			if !ev.Thorough() && rapid.IntRange(0, 3).Draw(t, "skipbig") > 0 {
@@ -512,6 +512,19 @@ func TestC16(t *testing.T) {
 			for i, f := range fits {
 				f.Fmt, f.Origin, f.Seed, f.NOps, f.NChunks = "lzma2", "ref", uint64(1000+i), 3, i%3
 				if !complete || !try(caseC16{Kind: "src", Src: &f}) {
+					complete = false
+				}
+			}
+		}
+		// writer: one Write of 140 000 bytes drawn uniformly from K of the 256
+		// byte values, for every K in a band around the point where a compressed
+		// chunk gains or loses a fraction of a percent against storing it: the
+		// raw / compressed decision and the 64 KiB limit of uncompressed chunks
+		if rec.Shard == 2%rec.Shards {
+			for k := 222; k <= 250 && complete; k += 2 {
+				seg := gen.Seg{Kind: "random", Len: 140000, Seed: uint64(3000 + k), K: k}
+				w := caseC08{Cfg: gen.Cfg{DefProps: true, DictCap: 1 << 20}, Steps: []stepW2{{Op: "write", Seg: &seg}, {Op: "close"}}}
+				if !try(caseC16{Kind: "writer", W: &w}) {
 					complete = false
 				}
 			}
